@@ -71,6 +71,10 @@ package main
 //@ pred csType(m *Metrics, pt string) = has(m.countryStats.proxies, pt) ==> m.countryStats.proxies[pt] != nil && allocated(m.countryStats.proxies[pt]) && m.countryStats.proxies[pt] != m.countryStats.natRestricted && m.countryStats.proxies[pt] != m.countryStats.natUnrestricted && m.countryStats.proxies[pt] != m.countryStats.natUnknown && m.countryStats.proxies[pt] != m.countryStats.unknown
 //@ pred ucsSets(m *Metrics, pt string) = (forall a string :: has(m.countryStats.unknown, a) ==> m.countryStats.unknown[a]) && (has(m.countryStats.proxies, pt) ==> (forall a string :: has(m.countryStats.proxies[pt], a) ==> m.countryStats.proxies[pt][a]))
 //@ pred metricsWF(m *Metrics) = csMaps(m) && (forall pt string :: csType(m, pt)) && (forall pt string :: ucsSets(m, pt))
+// Metrics is a monitor on its lock: the per-period statistics are well-formed whenever the lock is free, so every
+// UpdateCountryStats (always called under the lock) finds them so.
+//@ invariant Metrics(m) guard lock [C19]: metricsWF(m)
+//@   protects CountryStats.proxies, CountryStats.unknown, CountryStats.natRestricted, CountryStats.natUnrestricted, CountryStats.natUnknown, CountryStats.counts, MH!string!bool, MV!string!bool, ML!string!bool, MH!string!map[string]bool, MV!string!map[string]bool, ML!string!map[string]bool, MH!string!int, MV!string!int, ML!string!int
 //
 //@ func NewMetrics(metricsLogger *log.Logger) (r *Metrics, err error)
 //@   props C19
@@ -78,6 +82,18 @@ package main
 //@   loop 1 invariant m != nil && csMaps(m) && (forall pt string :: csType(m, pt)) && (forall pt string :: ucsSets(m, pt)) && fresh(m)
 //@   at call logMetrics assert {wf-when-published} metricsWF(m)
 //@   ensures err == nil && r != nil
+//
+// The hourly reset and the database reload also run under the lock and keep the statistics well-formed.
+//@ immutable Metrics.logger
+//@ func (m *Metrics) logMetrics()
+//@   props C19
+//@   requires m != nil
+//@   assumes m.logger != nil
+//@   loop 1 invariant true
+//
+//@ func (m *Metrics) LoadGeoipDatabases(geoipDB string, geoip6DB string) (err error)
+//@   props C19
+//@   requires m != nil
 //
 //@ func (m *Metrics) zeroMetrics()
 //@   props C19
@@ -93,9 +109,11 @@ package main
 //@   model int
 //@   flag nooverflow (fewer than 2^63 distinct addresses per country and period)
 //@   flag paths
-//@   assumes m != nil && metricsWF(m)
+//@   assumes m != nil
+//@   requires {statistics-well-formed} metricsWF(m)
 //@   assumes m.promMetrics != nil && m.promMetrics.ProxyTotal != nil
 //@   ensures {sets} ucsSets(m, proxyType)
+//@   ensures {stays-well-formed} metricsWF(m)
 //@   ensures {recorded} ucsSeen(m, addr, proxyType)
 //@   ensures {once} old(ucsSeen(m, addr, proxyType)) ==> (forall c string :: m.countryStats.counts[c] == old(m.countryStats.counts[c])) && len(m.countryStats.unknown) == old(len(m.countryStats.unknown))
 //@   ensures {once-per-type} old(ucsSeen(m, addr, proxyType)) && has(m.countryStats.proxies, proxyType) ==> len(m.countryStats.proxies[proxyType]) == old(len(m.countryStats.proxies[proxyType]))
